@@ -216,6 +216,21 @@ func topIndex(s string, ch byte) int {
 			depth--
 		}
 		if depth == 0 && s[i] == ch {
+			// the colon of the prefixes ?pure: ext: callfield: belongs to the expression, it is not a separator
+			if ch == ':' {
+				skip := false
+				for _, pre := range []string{"?pure", "ext", "callfield"} {
+					if strings.HasSuffix(s[:i], pre) {
+						k := i - len(pre) - 1
+						if k < 0 || !(s[k] == '$' || s[k] == '_' || s[k] == '.' || (s[k] >= '0' && s[k] <= '9') || (s[k] >= 'a' && s[k] <= 'z') || (s[k] >= 'A' && s[k] <= 'Z')) {
+							skip = true
+						}
+					}
+				}
+				if skip {
+					continue
+				}
+			}
 			return i
 		}
 	}
@@ -293,6 +308,30 @@ func negate(c string) (string, bool) {
 	if strings.HasPrefix(c, "!") {
 		return c[1:], true
 	}
+	// emptiness tests: len(x)==0 <-> len(x)>0
+	if strings.HasPrefix(c, "?pure:len(") {
+		if e := matchClose(c, len("?pure:len")); e > 0 {
+			switch c[e+1:] {
+			case "==0":
+				return c[:e+1] + ">0", true
+			case ">0", "!=0":
+				return c[:e+1] + "==0", true
+			}
+		}
+	}
+	// relational operators (integer operands in the summaries): a<b <-> a>=b, a>b <-> a<=b
+	for _, pr := range [][2]string{{"<=", ">"}, {">=", "<"}} {
+		if parts := splitTop(c, pr[0]); len(parts) == 2 {
+			return parts[0] + pr[1] + parts[1], true
+		}
+	}
+	if !strings.Contains(c, "<<") && !strings.Contains(c, ">>") && !strings.Contains(c, "->") {
+		for _, pr := range [][2]string{{"<", ">="}, {">", "<="}} {
+			if parts := splitTop(c, pr[0]); len(parts) == 2 {
+				return parts[0] + pr[1] + parts[1], true
+			}
+		}
+	}
 	for _, pr := range [][2]string{{"!=", "=="}, {"==", "!="}} {
 		if parts := splitTop(c, pr[0]); len(parts) == 2 {
 			return parts[0] + pr[1] + parts[1], true
@@ -310,7 +349,23 @@ func negative(c string) bool {
 	if strings.HasPrefix(c, "!") {
 		return true
 	}
+	if strings.HasPrefix(c, "?pure:len(") {
+		if e := matchClose(c, len("?pure:len")); e > 0 && e+1 < len(c) {
+			return c[e+1:] == "==0"
+		}
+	}
 	return len(splitTop(c, "!=")) == 2
+}
+
+// normLenCond writes the non-emptiness test in one way: len(x)!=0 -> len(x)>0.
+func normLenCond(c string) string {
+	c = strings.TrimSpace(c)
+	if strings.HasPrefix(c, "?pure:len(") {
+		if e := matchClose(c, len("?pure:len")); e > 0 && c[e+1:] == "!=0" {
+			return c[:e+1] + ">0"
+		}
+	}
+	return c
 }
 
 func isPureExpr(e string) bool {
@@ -461,7 +516,7 @@ func canonStmts(list []*nstmt, atEnd bool, all []*nstmt) []*nstmt {
 				s.cases[i].body = canonStmts(s.cases[i].body, false, all)
 			}
 		case "for", "range":
-			s.then = canonStmts(s.then, false, all)
+			s.then = canonStmts(loopContinueToIf(s.then), false, all)
 		}
 	}
 	// 2. statement-level rewrites
@@ -489,11 +544,15 @@ func canonStmts(list []*nstmt, atEnd bool, all []*nstmt) []*nstmt {
 	list = out
 	// 3. if polarity and else flattening
 	out = nil
-	for i, s := range list {
+	work := append([]*nstmt{}, list...)
+	for i := 0; len(work) > 0; i++ {
+		s := work[0]
+		work = work[1:]
 		if s.kind != "if" {
 			out = append(out, s)
 			continue
 		}
+		s.a = normLenCond(s.a)
 		if s.els != nil && negative(s.a) {
 			if nc, ok := negate(s.a); ok {
 				s.a, s.then, s.els = nc, s.els, s.then
@@ -512,7 +571,7 @@ func canonStmts(list []*nstmt, atEnd bool, all []*nstmt) []*nstmt {
 			els := s.els
 			s.els = nil
 			out = append(out, s)
-			out = append(out, els...)
+			work = append(append([]*nstmt{}, els...), work...) // the flattened statements are themselves flattened
 			continue
 		}
 		if s.els != nil && leaves(s.els) && !leaves(s.then) {
@@ -520,7 +579,7 @@ func canonStmts(list []*nstmt, atEnd bool, all []*nstmt) []*nstmt {
 				then := s.then
 				s.a, s.then, s.els = nc, s.els, nil
 				out = append(out, s)
-				out = append(out, then...)
+				work = append(append([]*nstmt{}, then...), work...)
 				continue
 			}
 		}
@@ -706,10 +765,14 @@ func usesVarDeep(list []*nstmt, v string) bool {
 // constValues: numeric constants of the module by name (filled by the loader of the rules; ambiguous names are dropped).
 var constValues = map[string]string{}
 
+var numConvRe = regexp.MustCompile(`(^|[^A-Za-z0-9_.$:])(?:u?int(?:8|16|32|64)?|uintptr|float(?:32|64)|byte|rune)\(`)
+
 func canonEffect(summary string) string {
 	if summary == "" || strings.HasPrefix(summary, "?nobody") {
 		return summary
 	}
+	// numeric conversions are written in one way whatever position they were rendered in
+	summary = numConvRe.ReplaceAllString(summary, "${1}?pure:conv(")
 	list := parseStmts(summary)
 	list = expandHelpers(list, 0)
 	// helper locals become ordinary locals
@@ -898,4 +961,29 @@ func expandExprHelpers(c string) string {
 		}
 	}
 	return c
+}
+
+// loopContinueToIf: in a loop body, `if(c){continue}; rest` runs rest exactly when c is false: it is rewritten
+// to `if(!c){rest}` (only for a condition that can be negated and when rest holds no further continue/break games
+// at this level - the rewrite is applied from the last such guard backwards).
+func loopContinueToIf(body []*nstmt) []*nstmt {
+	for i := len(body) - 1; i >= 0; i-- {
+		s := body[i]
+		if s.kind != "if" || s.els != nil || len(s.then) != 1 || s.then[0].kind != "continue" {
+			continue
+		}
+		nc, ok := negate(s.a)
+		if !ok {
+			continue
+		}
+		rest := append([]*nstmt{}, body[i+1:]...)
+		if len(rest) == 0 {
+			if isPureExpr(s.a) {
+				body = body[:i] // `if(c){continue}` at the very end of the body does nothing
+			}
+			continue
+		}
+		body = append(append([]*nstmt{}, body[:i]...), &nstmt{kind: "if", a: nc, then: rest})
+	}
+	return body
 }
